@@ -228,6 +228,7 @@ type sentVote struct {
 	R         uint32
 	Authentic int // number of (target, signer) pairs that verify for their filed target under the prescribed set
 	Targets   int
+	Per       map[string]map[int]bool // target -> validator indices whose signature verifies for it
 	Results   []tmconsensus.HandleVoteProofsResult
 }
 
